@@ -34,7 +34,7 @@ def one(w):
     elif rc == 1 and "VIOLATION" in out: verdict = "caught"
     elif rc == 0: verdict = "missed"
     else: verdict = "inconclusive(rc=%d)" % rc
-    fps = sorted(set(re.findall(r"\[(C\d\d:[^\]]+)\]", out)))[:4]
+    fps = sorted(set(re.findall(r"\[(C\d\d:[^\]]+)\]", "\n".join(l for l in out.splitlines() if not l.startswith("KNOWN-FINDING")))))[:4]
     ev = re.search(r"evaluations=(\d+)", out)
     print(name, verdict, fps[:2], flush=True)
     return name, {"property": pid, "tier": tier, "verdict": verdict, "fingerprints": fps, "evaluations_until_stop": int(ev.group(1)) if ev else None}
